@@ -14,6 +14,7 @@ RULES = {
     "lin_h": {"title": "lin_h", "name": "lin_h", "logsource": {"category": "c", "product": "linux"}, "fields": ["h", "User"], "detection": {"s": {"h": "x", "q|fieldref": "h"}, "condition": "s"}},
     "broken": {"title": "broken", "name": "broken", "logsource": {"category": "e"}, "detection": {"selection": {"a": 1}, "condition": "selection and not filter"}},
     "fixed": {"title": "fixed", "name": "fixed", "logsource": {"category": "e"}, "detection": {"selection": {"a": 1}, "filter": {"b": 2}, "condition": ["selection and not filter", "selection"]}},
+    "strict": {"title": "strict", "name": "strict", "logsource": {"category": "m"}, "detection": {"s": {"fieldA": "probe"}, "condition": "s"}},
     "sel": {"title": "sel", "name": "sel", "logsource": {"category": "c", "product": "windows"}, "detection": {"sel_a": {"f": "1"}, "sel_b": {"f|exists": False}, "condition": "1 of sel_* and not sel_b"}},
 }
 FILTER = {"title": "F", "logsource": {"category": "c"}, "filter": {"rules": "any", "adm": {"User|startswith": "adm"}, "condition": "not adm"}}
@@ -27,7 +28,9 @@ PIPELINE = {"name": "p", "priority": 10, "vars": {"admins": ["root", "admin"]}, 
     {"id": "rawsfx", "type": "field_name_suffix", "suffix": "_raw", "detection_item_conditions": [{"type": "processing_item_applied", "processing_item_id": "winmap"}], "detection_item_cond_not": True},
     {"id": "px", "type": "field_name_prefix", "prefix": "p."},
     {"id": "rs", "type": "replace_string", "regex": "^a$", "replacement": "aa"},
-    {"id": "fail", "type": "rule_failure", "message": "unsupported", "rule_conditions": [{"type": "logsource", "category": "zzz"}]}],
+    {"id": "fail", "type": "rule_failure", "message": "unsupported", "rule_conditions": [{"type": "logsource", "category": "zzz"}]},
+    # reads the field-mapping tracking of the pipeline it belongs to: fieldA is mapped by the backend's own (class-level) pipeline
+    {"id": "strictmap", "type": "strict_field_mapping_failure", "rule_conditions": [{"type": "logsource", "category": "m"}]}],
     "postprocessing": [{"type": "embed", "prefix": "[", "suffix": "]"}]}
 
 
@@ -110,6 +113,10 @@ class C15Bounded(Bounded):
                     except Exception as e:
                         fail("crash", f"backend {bname}, order {perm}, filter {with_filter}: {type(e).__name__}: {e}", [bname, list(perm), with_filter])
                         continue
+                    try:        # a second backend object of the same class with a pipeline object of ITS OWN (they still share the class-level backend pipeline) ...
+                        B(ProcessingPipeline.from_dict(copy.deepcopy(PIPELINE))).convert(SigmaCollection.from_dicts([copy.deepcopy(RULES["strict"]), copy.deepcopy(RULES["plain"])]))
+                    except SigmaError:
+                        pass
                     try:        # a second backend object of the same class that is given the SAME pipeline object (its items are re-bound to that backend's combined pipeline) ...
                         B(b.processing_pipeline).convert(SigmaCollection.from_dicts([copy.deepcopy(RULES["lin_h"]), copy.deepcopy(RULES["plain"])]))
                     except SigmaError:
